@@ -268,6 +268,20 @@ CLAIMED = {
         note="four serializer/parser defects repaired in /repo.",
         technique="Coq proof (induction over text/value against the per-character specification machine) + "
                   "differential correspondence + re-tokenization oracle in extracted OCaml"),
+    "C07": dict(
+        category="proof",
+        text="Pipeline model AA ; OT ; Ser (attribute sorting, optional-tag omission with the TRANSLATED omission "
+             "rules, the token loop) tied to HTMLSerializer.render by exact agreement on every generated case. "
+             "Theorems: the filter order is the one serialize() uses (translator fact); omission only removes tokens "
+             "(subsequence) and only optional tags where the syntax allows it (C13); sorting keeps the attribute map "
+             "(permutation); quote character, quoting mode and escape_lt are invisible to the WHATWG tokenizer (every "
+             "value reads back the same). PARTIAL: that the parser re-implies what was omitted is decided by "
+             "generating conforming trees from a content-model grammar, serializing under random option sets with "
+             "both walkers and re-parsing; three listed findings.",
+        design_ref="DESIGN.md 3 C07",
+        note="the reader is html5lib's own parser.",
+        technique="Coq proof (composition of filter theorems, lexical round trips) + differential correspondence + "
+                  "grammar-based round-trip run"),
 }
 
 PENDING_REASON = "not yet built in this round (planned: Coq model + theorems per DESIGN.md section 3); no check is registered, so nothing is claimed"
